@@ -317,7 +317,7 @@ func (c *Ctx) deepLeaves(fn *ssa.Function, isRead bool) (out []leaf, ok bool, wh
 		case isRead && call.Call.IsInvoke() && call.Call.Method.Name() == "Read" && si == 0:
 			// a plain Read on the stream (a scan loop): a run of bytes of unknown length
 			out = append(out, leaf{id: firstNonEmpty(d.fieldSink(d.objectOf(call.Call.Args[0], di.fr), 0), "bytes"), width: -1, order: "-", src: &codecEntry{call: call, what: "bytes", width: -1, order: "-"}})
-		case id == "builtin.len" || id == "builtin.cap" || strings.HasSuffix(id, ".Len") || strings.HasSuffix(id, ".Bytes") || strings.HasSuffix(id, ".String"):
+		case id == "builtin.len" || id == "builtin.cap" || strings.HasSuffix(id, ".Len") || strings.HasSuffix(id, ".Bytes") || strings.HasSuffix(id, ".String") || id == "bytes.Buffer.Grow" || id == "bytes.Buffer.Cap" || id == "bytes.Buffer.Available":
 			continue
 		case id == "bytes.Buffer.WriteByte" && !isRead:
 			out = append(out, leaf{id: "value", width: 1, order: "-"})
